@@ -210,6 +210,7 @@ func runC02(c *Check) {
 	c.ruleTipReadNotStale("R14")
 	c.ruleGenesisAtHeightZero("R15", a)
 	c.ruleCursorIsOwnHash("R16")
+	c.ruleCursorMovesAfterRevert("R17")
 }
 
 // ruleRepoCoupled: any function that writes one of (height, lastHeaders, heights) writes the others on
@@ -387,6 +388,7 @@ func runC09(c *Check) {
 	c.ruleGenesisAtHeightZero("R17", a)
 	c.ruleRepoWritesUnderLock("R18", a)
 	c.ruleTruncatedFileRewrittenInPlace("R19", a)
+	c.ruleExplicitHeightNotClamped("R20")
 	c.ruleSaveNotSkipped("R12", []string{"storage.(*BlockRepository).save", "storage.(*BlockRepository).Save"}, "storage", "BlockRepository",
 		map[*types.Var]bool{a.lastHeaders: true, a.height: true}, map[string]bool{"storage.(*BlockRepository).Load": true, "storage.NewBlockRepository": true})
 
@@ -617,6 +619,7 @@ func runC10(c *Check) {
 	if a := c.repoAnchors("R11"); a != nil {
 		c.ruleRepoWritesUnderLock("R11", a)
 		c.ruleTruncatedFileRewrittenInPlace("R12", a)
+		c.ruleCursorMovesAfterRevert("R13")
 	}
 
 	if fn := c.Fn("R2", "storage.(*BlockRepository).Add"); fn != nil {
